@@ -53,7 +53,15 @@ func (m *Model) line(s string) (string, error) {
 		return "", err
 	}
 	l, err := m.out.ReadString('\n')
-	return strings.TrimRight(l, "\n"), err
+	if err != nil {
+		// the model process ended: say on which request (this is a defect of the model or the driver)
+		show := s
+		if len(show) > 600 {
+			show = show[:600] + "..."
+		}
+		return "", fmt.Errorf("model process ended (%v) on request %q", err, show)
+	}
+	return strings.TrimRight(l, "\n"), nil
 }
 
 func (m *Model) Reset() error {
